@@ -19,6 +19,14 @@ CHECKS = {
    text="Seeded exploration: every target query is executed under independently drawn schedules (policy, 1..16 workers, durations, stalls, by-reference vs pickled transfer, GC points) of a simulated cluster behind dask's scheduler= seam; all executions must give equal observations, every task argument must be bit-identical after the call, repeated computes and re-execution of one graph dict must agree, user frames stay intact. A clean batch is evidence, not proof.",
    note="Task bodies are atomic (no pre-emption inside a task); reference = dask-expr itself under 1-worker FIFO; program space sampled by the recipe generator.", ref="DESIGN.md §5 C05"),
 }
+CHECKS.update({
+ "C09": dict(technique="deterministic simulation: simulated-scheduler admission checks + remote-style (pickled) execution on a seeded multi-worker cluster",
+   text="Seeded exploration: for every generated query, every optimizer stage, fuse on/off, both shuffle methods, partition-filtered sources and graphs imported via persist / from_delayed / legacy round trips, the lowered plan's graph must pass the simulated scheduler's admission (one task per reported output key, closure incl. fused sub-graphs, acyclicity, no key defined differently by two expressions, pickling with planner objects forbidden) and then run to completion on a multi-worker simulated cluster that ships every task and cross-worker value as bytes.",
+   note="The schedule does not change the static verdicts; the simulator contributes the remote-execution boundary, deadlock detection and the breadth of (stage x import x filter) states. Program space sampled.", ref="DESIGN.md §5 C09"),
+ "C12": dict(technique="deterministic simulation: seeded schedules + partd write/read fault injection with conservation / exactly-once / co-location invariants",
+   text="Seeded exploration of shuffle configurations (n_in, n_out, max_branch around the staging thresholds, tasks and disk, key dtypes with nulls, index shuffles, ignore_index, output subsets, int-vs-float twin frames) under drawn schedules of the simulated cluster; the disk method additionally with a tiny partd buffer and injected ENOSPC / torn append / EIO faults. Invariants: every input row exactly once, equal keys in one partition, same partition number in the twin frame, a requested subset equals the full run's partitions, a failed store raises and the next fault-free compute is correct.",
+   note="(n_in, n_out, max_branch) grid is sampled, not enumerated; partd faults at File.append/_get granularity.", ref="DESIGN.md §5 C12"),
+})
 PENDING = {}
 def main():
     checks = []
